@@ -524,6 +524,19 @@ def _lazy(vals, v):
             {"source": 'local a = b + 1, b = 2; a', "oracle": {"oracle": "stdout_equals", "value": "3\n"}}]
 
 
+@adapter("limit")
+def _limit(vals, v):
+    """a program that needs a handful of frames must succeed under EVERY limit at least that large: the limit from the
+    counterexample (first 8-byte value) and a spread of huge ones"""
+    limits = [100, 4294967295, 4294967296, 4294967300, 8589934592, 2 ** 63, 2 ** 64 - 1]
+    try:
+        limits.insert(0, max(u(vals, 0), 50))
+    except Exception:
+        pass
+    prog = "local f(n) = if n == 0 then 0 else 1 + f(n - 1); f(20)"
+    return [{"source": prog, "args": ["--max-stack", str(m)], "oracle": {"oracle": "stdout_equals", "value": "20\n"}} for m in limits]
+
+
 @adapter("crop")
 def _crop(vals, v):
     """every small crop size (and the counterexample's, clipped) on a run-time error with a 12-frame trace"""
